@@ -16,6 +16,7 @@ import (
 	"fmt"
 	"image"
 	"io/ioutil"
+	"math"
 	"net/http"
 	"net/url"
 	"os"
@@ -2241,6 +2242,11 @@ func (d *Data) newLabel(v dvid.VersionID) (uint64, error) {
 	d.mlMu.Lock()
 	defer d.mlMu.Unlock()
 
+	// Refuse to wrap around the 64-bit label space: label 0 is background and small labels may be in use.
+	if (d.NextLabel != 0 && d.NextLabel == math.MaxUint64) || (d.NextLabel == 0 && d.MaxRepoLabel == math.MaxUint64) {
+		return 0, fmt.Errorf("label space of data %q is exhausted: cannot allocate a label above %d", d.DataName(), uint64(math.MaxUint64))
+	}
+
 	// Increment and store if we don't have an ephemeral new label start ID.
 	if d.NextLabel != 0 {
 		d.NextLabel++
@@ -2267,6 +2273,16 @@ func (d *Data) newLabels(v dvid.VersionID, numLabels uint64) (begin, end uint64,
 	}
 	d.mlMu.Lock()
 	defer d.mlMu.Unlock()
+
+	// Refuse to wrap around the 64-bit label space.
+	cur := d.MaxRepoLabel
+	if d.NextLabel != 0 {
+		cur = d.NextLabel
+	}
+	if numLabels > math.MaxUint64-cur {
+		err = fmt.Errorf("label space of data %q is exhausted: cannot allocate %d labels above %d", d.DataName(), numLabels, cur)
+		return
+	}
 
 	// Increment and store.
 	if d.NextLabel != 0 {
